@@ -14,7 +14,11 @@ import ndn.encoding as enc
 from ndn.transport.face import Face
 from ndn import types as ndn_types
 
-from .vloop import VLoop, FakeTime
+from .vloop import VLoop, FakeTime, EPOCH
+
+# both front-ends are loaded before any environment is entered (they copy helpers of ndn.utils at import time)
+import ndn.app as _ndn_app  # noqa: E402,F401
+import ndn.appv2 as _ndn_appv2  # noqa: E402,F401
 
 
 class Counter32:
@@ -27,18 +31,76 @@ class Counter32:
         return a + h % (b - a + 1)
 
 
+_CUR = {}
+_ORIG = {}
+
+
+def _disp_timestamp():
+    ft = _CUR.get('ft')
+    return int(ft.time() * 1000) if ft is not None else _ORIG['timestamp']()
+
+
+def _disp_gen_nonce():
+    ctr = _CUR.get('ctr')
+    return ctr.randint(1, 2 ** 32 - 1) if ctr is not None else _ORIG['gen_nonce']()
+
+
+def _disp_gen_nonce_64():
+    ctr = _CUR.get('ctr')
+    return ctr.randint(1, 2 ** 64 - 1) if ctr is not None else _ORIG['gen_nonce_64']()
+
+
 @contextlib.contextmanager
 def owned_env(loop: VLoop, seed: int = 0):
     """Own utils.timestamp() (virtual clock) and nonce generation for the duration of an execution."""
-    old_time = ndn_utils.time
-    old_rand = ndn_utils.randint
-    ndn_utils.time = FakeTime(loop)
+    import sys as _sys
+    import time as _time
+    import random as _random
+    # (1) the public helpers utils.timestamp / gen_nonce / gen_nonce_64 are replaced by identity in every loaded ndn module,
+    #     so neither the way utils reads the clock nor the way other modules import the helpers matters.  The replacements
+    #     are process-wide dispatchers to the *current* environment: a module imported while an environment is active
+    #     copies the dispatcher, and still follows the next execution's clock.
+    prev_cur = dict(_CUR)
+    _CUR.update(ft=FakeTime(loop), ctr=Counter32(seed + 13))
+    repl = {}
+    for fname, fn in (('timestamp', _disp_timestamp), ('gen_nonce', _disp_gen_nonce), ('gen_nonce_64', _disp_gen_nonce_64)):
+        orig = getattr(ndn_utils, fname, None)
+        if orig is not None and orig is not fn:
+            _ORIG.setdefault(fname, orig)
+            repl[id(orig)] = (orig, fn)
+    patched = []
+    for mname, mod in list(_sys.modules.items()):
+        if mod is None or not (mname == 'ndn' or mname.startswith('ndn.')):
+            continue
+        for attr, val in list(vars(mod).items()):
+            if callable(val) and id(val) in repl and repl[id(val)][0] is val:
+                patched.append((mod, attr, val))
+                setattr(mod, attr, repl[id(val)][1])
+    old_time = getattr(ndn_utils, 'time', None)
+    old_rand = getattr(ndn_utils, 'randint', None)
+    ft = FakeTime(loop)
+    ndn_utils.time = ft
     ndn_utils.randint = Counter32(seed).randint
+    # whichever way the library reads the wall clock or draws a nonce, the harness owns it for the duration of the execution
+    g_time, g_ns, g_randint = _time.time, _time.time_ns, _random.randint
+    _time.time, _time.time_ns = ft.time, ft.time_ns
+    _random.randint = Counter32(seed + 7).randint
     try:
         yield
     finally:
-        ndn_utils.time = old_time
-        ndn_utils.randint = old_rand
+        for mod, attr, val in patched:
+            setattr(mod, attr, val)
+        _CUR.clear()
+        _CUR.update(prev_cur)
+        _time.time, _time.time_ns, _random.randint = g_time, g_ns, g_randint
+        if old_time is not None:
+            ndn_utils.time = old_time
+        elif hasattr(ndn_utils, 'time'):
+            del ndn_utils.time
+        if old_rand is not None:
+            ndn_utils.randint = old_rand
+        elif hasattr(ndn_utils, 'randint'):
+            del ndn_utils.randint
 
 
 class HFace(Face):
